@@ -78,13 +78,82 @@ def main():
     tier, seed, replay = E.tier_seed()
     V = E.Verdict(PID, tier, seed)
     rng = random.Random(seed * 314606869 + 18)
-    V.coverage['rule'] = ('seeded pairwise_ranks.tsv tables (1..15 features, annotated "name-(card; cov)" or plain names, names containing the letters AND, duplicated orientations, '
+    V.coverage['rule'] = ('TLC: Summary.tla enumerates every table of <= 3 rows over {label, f1, BRAND, "f1 AND BRAND"} x scores {0,1,3} with the specified doubled medians; each (quick: 2500 sampled) is summarised by the real task and compared exactly; seeded pairwise_ranks.tsv tables (1..15 features, annotated "name-(card; cov)" or plain names, names containing the letters AND, duplicated orientations, '
                           'several rows per feature, label-label row, pairs without the label, negative scores, heuristics with and without "MI", interaction orders 1..3) are fed to the '
                           'real outrank_task_result_summary; feature_singles.tsv and feature_singles_aggregated.tsv form one trace record each, validated by TraceSummary.tla '
                           '(EachFeatureOnce, ScoreIsMedian, Descending, NormalisedBestOneWorstZero, OrderPreserved, AggregatedIsMedianOfInteractions).  '
                           'non-trivial = distinct tables with >= 2 features')
     V.assumptions += ['base feature names contain no "-" (the annotation separator); integer scores so that medians and the min-max normalisation are exact rationals',
                       'when all medians coincide the MI normalisation is undefined and the scores are not judged']
+    # ---- binding A: every table of <= 3 rows over {label, f1, BRAND, "f1 AND BRAND"} (Summary.tla) through the real task
+    wd0 = E.workdir('c18a')
+    try:
+        cfg0 = E.write_cfg(os.path.join(wd0, 'mc.cfg'), constants={'NF': 2, 'ScoreVals': '{0,1,3}', 'MaxTableRows': 3}, invariants=['LabelRowsOnly', 'MedianWithinRange', 'Emit'])
+        res0 = E.run_tlc('Summary', cfg0, timeout=900)
+        E.require_ok(res0, 'Summary')
+        V.add_tlc(res0, 'Summary')
+        V.tlc_violation(res0, 'Summary')
+        small = [(list(map(list, t[1])), dict(t[2]) if not isinstance(t[2], tuple) else {i + 1: v for i, v in enumerate(t[2])}) for t in E.extract_tuples(res0.stdout, 'CASE')]
+    finally:
+        E.cleanup(wd0)
+    if not small:
+        raise E.MachineryError('Summary.tla emitted no tables')
+    if tier == 'quick':
+        small = rng.sample(small, 2500)
+    sitems = []
+    for rows_, exp in small:
+        lab = rng.choice(['label', 'y'])
+        nm = {0: lab, 1: 'f1', 2: 'BRAND', 3: 'f1 AND BRAND'}
+        ann = rng.random() < 0.4
+        a_ = {k_: (f'{v}-({3 + k_}; {90 - k_})' if ann else v) for k_, v in nm.items()}
+        sitems.append({'label': lab, 'heuristic': rng.choice(['MI-numba-randomized', 'surrogate-SGD', 'max-value-coverage', 'MI']), 'order': 2,
+                       'table': [[a_[r_[0]], a_[r_[1]], r_[2]] for r_ in rows_], 'nm': nm})
+    sgot = PC.pipe_eval([{'op': 'summary_run', 'items': sitems[i:i + 250]} for i in range(0, len(sitems), 250)], modules=['sketch_ops'])
+    sflat = []
+    for r in sgot:
+        if not r or 'ok' not in r:
+            raise E.MachineryError('summary_run failed: ' + PC.failure_text(r))
+        sflat += r['ok']
+    from fractions import Fraction
+    for (rows_, exp), it, ob in zip(small, sitems, sflat):
+        key = f'small-table:{it["table"]} label={it["label"]} heuristic={it["heuristic"]}'
+        if 'error' in ob:
+            if exp:
+                V.violation('raises:' + key, ob['error'], it)
+            continue
+        got_s = [(base(f), v) for f, v in ob['singles']]
+        want = {it['nm'][f]: Fraction(m2, 2) for f, m2 in exp.items()}
+        if sorted(f for f, _ in got_s) != sorted(want):
+            V.violation('each-feature-once:' + key, f'features listed {[f for f, _ in got_s]}, scored against the label: {sorted(want)}', it)
+            continue
+        mi = 'MI' in it['heuristic']
+        lo, hi = (min(want.values()), max(want.values())) if want else (0, 0)
+        bad = False
+        for f, v in got_s:
+            e = want[f]
+            if mi:
+                if hi == lo:
+                    continue
+                e = (e - lo) / (hi - lo)
+            if v != v or abs(v - float(e)) > 1e-9:
+                V.violation('scores:' + key, f'{f}: written {v}, specified {"normalised " if mi else ""}median {float(e)}', it)
+                bad = True
+                break
+        if bad:
+            continue
+        meds = [want[f] for f, _ in got_s]
+        if any(meds[i] < meds[i + 1] for i in range(len(meds) - 1)):
+            V.violation('order:' + key, f'rows not in descending score order: {got_s}', it)
+        if 'f1 AND BRAND' in want:
+            written = dict(got_s)['f1 AND BRAND']
+            agg = {c: v for c, v in (ob['agg'] or [])}
+            if set(agg) != {'f1', 'BRAND'} or any(abs(v - written) > 1e-9 for v in agg.values() if written == written):
+                V.violation('aggregated:' + key, f'aggregated table {ob["agg"]}; the only interaction feature has score {written}', it)
+        elif ob['agg']:
+            V.violation('aggregated:' + key, f'aggregated table {ob["agg"]} although no interaction feature was scored against the label', it)
+    V.count(evaluations=len(small), nontrivial=sum(1 for _, e in small if len(e) >= 2), traces=len(small))
+    V.add_sample({'small_table': sitems[len(sitems) // 2]['table'], 'spec_doubled_medians': small[len(small) // 2][1], 'real_singles': sflat[len(small) // 2].get('singles')})
+
     n = 80 if tier == 'quick' else 1500
     items = [gen_item(rng) for _ in range(n)]
     got = PC.pipe_eval([{'op': 'summary_run', 'items': items[i:i + 40]} for i in range(0, n, 40)], modules=['sketch_ops'])
